@@ -8,5 +8,6 @@ func init() {
 		"RecordError: position of the synthesized exception.* attributes relative to the caller's attributes is not asserted, only counts, the prefix rule for the caller's attributes and the exception.message value",
 		"End running as the deferred call of a panicking goroutine adds the documented exception event, which is modelled as an ordinary event (event FIFO, per-event attribute cap and dropped count; 2 attributes, 3 with WithStackTrace(true)); whether the panic is continued is not asserted; End inside a deferred closure of a panicking goroutine is an ordinary End",
 		"the caller may pass one attribute slice object to several calls and to spans of two providers: every call is modelled with the key-values the caller built (the library must not alter elements [0:len) of an attribute slice argument; spare capacity is not examined); trace.Link.Attributes slices are never re-used or overwritten by the caller (AddLink keeps the caller's slice on the pinned tree)",
+		"the limits in force are derived from the documentation of the way they are configured: WithRawSpanLimits as-is; deprecated WithSpanLimits replaces zero / negative fields by the Default…Limit constants' documented values (unlimited value length, 128) whatever the environment says; no option = NewSpanLimits (documented variables, general OTEL_ATTRIBUTE_* ones standing in for unset span-specific ones, blank = unset, not an integer = default; a non-integer span-specific value next to a usable general one is not generated); the later of two span limits options counts",
 	))
 }
